@@ -218,6 +218,7 @@ func genOutbox(r *Rng, prop string, k int, tier string) *RunSpec {
 	case 2:
 		o.Transport = "httpsig" // the real HttpSigTransport over the simulated network
 	}
+	o.QueryActor = prop == "C05" && r.Intn(3) == 0
 	st := newStd(o)
 	g := &obGen{r: r, st: st}
 	g.build(prop)
@@ -258,6 +259,9 @@ func genOutbox(r *Rng, prop string, k int, tier string) *RunSpec {
 		box := st.Alice
 		if nPosts > 1 && r.Intn(4) == 0 {
 			box = st.Carol
+		}
+		if o.QueryActor && r.Bool() {
+			box = st.Quinn // an outbox whose IRI carries a query string
 		}
 		var rq ReqSpec
 		if !o.Social || (o.Federating && r.Intn(5) == 0) {
@@ -787,6 +791,17 @@ func oracleC05(c *DriveCtx, res *Result) {
 			}
 			if pv, ok := posted["published"]; ok && canonJSON(o.stored["published"]) != canonJSON(pv) {
 				s.violate("C05", "wrap-published", "wrap", fmt.Sprintf("published %v not copied to the Create (has %v)", pv, o.stored["published"]))
+			}
+		}
+		if wrapped {
+			// the wrapping Create copies the object's addressing (whatever the protocols enabled)
+			for _, p := range fiveProps {
+				if !subset(idsOf(posted[p]), idsOf(o.stored[p])) {
+					s.violate("C05", "wrap-addressing-not-copied", "wrap:"+p, fmt.Sprintf("the object's %s %v was not copied to the wrapping Create (has %v)", p, sortedSet(idsOf(posted[p])), sortedSet(idsOf(o.stored[p]))))
+				}
+			}
+			if srv.actorByName(t.Req.Actor) != nil && !contains(idsOf(o.stored["actor"]), o.actor.ID) {
+				s.violate("C05", "wrap-actor", "wrap", fmt.Sprintf("wrapping Create has actor %v; the owner of the outbox posted to is %s", idsOf(o.stored["actor"]), o.actor.ID))
 			}
 		}
 		if typeOf(o.stored) != typeOf(A0) {
